@@ -105,6 +105,19 @@ def replay_enc(rec):
             bad.append(("decode-of-documented-strand", rec["msg"], d2))
     if not numpy.array_equal(acc, keep):
         bad.append(("argument-modified", "accessor unchanged", "changed"))
+    if "path" in rec and rec["vtlen"] == 0 and len(rec["msg"]) >= 2:
+        # conformance only (no property speaks about it): the need_path record of the specification's encoder
+        kw = dict(is_faster=(rec["mode"] == "fast"), need_path=True)
+        sh = shuffles_of(tbl)
+        if sh is not None:
+            kw["shuffles"] = sh
+        r = impl.call(dsw.encode, numpy.array(rec["msg"], dtype=int), acc, rec["start"], **kw)
+        try:
+            got = [[int(a), int(b)] for a, b in r["value"][1].tolist()] if r["out"] == "ok" else r.get("type")
+        except Exception:  # noqa
+            got = "unreadable"
+        if got != rec["path"]:
+            bad.append(("conformance:need_path-record", rec["path"], got))
     return bad
 
 
